@@ -51,9 +51,10 @@ CHECKS["C16"] = dict(
     rule="every machine of the family packages{1,2,4} x dies{1,2} x NUMA/die{1,2} x cores{1,2(,3)} x threads{1,2} x 14 variants "
          "(HT numbering, offline/isolated CPUs, CPU-less PMEM/HBM nodes, memory-less and movable-only nodes, cache sharing patterns, hybrid cores, cpufreq); "
          "non-trivial = machines with at least one irregularity (extra nodes, offline/isolated CPUs, memory-less node, hybrid cores)",
-    bound=dict(quick="~500 machines, every accessor the property lists compared with the generator record", thorough="~800 machines"),
+    bound=dict(quick="~570 machines for discovery; ~250 machines x 4 available/reserved configurations for the pool tree", thorough="~830 machines; ~250 machines x 6 configurations"),
     assumptions=["sysfs model: node ids contiguous from 0, an offline CPU keeps its nodeN link but has no topology directory, node cpulist lists online CPUs only"],
-    stages=[dict(pkg="./pkg/sysfs", run="TestVerifC16Discovery", shards=16)],
+    stages=[dict(pkg="./pkg/sysfs", run="TestVerifC16Discovery", shards=16),
+            dict(pkg="./pkg/resmgr", run="TestVerifC16Pools", shards=16)],
 )
 
 CHECKS["C08"] = dict(
